@@ -267,11 +267,13 @@ void vf_harness(void) { readHeaders_turn(); VF_CANARY(); }
 parse_query = Unit(
     'Url_parseQuery_order', 'C09',
     cuts=[Cut('pq', HC, r'^Dic<> Url::parseQuery\(const String& querystring\)\s*$',
-              rules=[(r'Dic<> query;', '', None), (r'return query;', 'return;', None), (r'return ([^;]*\.split\([^;]*\));', r'{ TV vf_r = \1; (void)vf_r; return; }', None),
-                     (r'Dic<> q = ', 'TV q = ', None),
-                     (r"(\w+)\.replace\('\+', ' '\)", r'T_REPLACE_PLUS(\1)', None), (r"(T_REPLACE_PLUS\(\w+\)|\w+|Url::decode\([^()]*(?:\([^()]*\))?[^()]*\))\.split\('&', '='\)", r'T_SPLIT(\1)', None),
+              rules=[(r'Dic<> query;', '', None), (r'return query;', 'return;', None), (r'Url::decode\(', 'T_DECODE(', None),
+                     # receivers may be an identifier or an (already rewritten) stage call with a simple argument
+                     (r"((?:T_\w+\()*\w+\)*)\.replace\('\+', ' '\)", r'T_REPLACE_PLUS(\1)', None), (r"((?:T_\w+\()*\w+\)*)\.replace\('\+', ' '\)", r'T_REPLACE_PLUS(\1)', None),
+                     (r"((?:T_\w+\()*\w+\)*)\.split\('&', '='\)", r'T_SPLIT(\1)', None),
+                     (r'return (T_SPLIT\([^;]*\));', r'{ TV vf_r = \1; T_STORE_ALL(vf_r); return; }', None), (r'Dic<> q = ', 'TV q = ', None),
                      (r'foreach2\(String& k, const String& v, q\)', 'for (TV k = T_ITEM(q), v = T_ITEM(q); vf_once; vf_once = 0)', None),
-                     (r'query\[Url::decode\(k\)\] = Url::decode\(v\);', 'T_STORE(T_DECODE(k), T_DECODE(v));', None), (r'Url::decode\(', 'T_DECODE(', None)])],
+                     (r'query\[([^;]*)\] = ([^;]*);', r'T_STORE(\1, \2);', None)])],
     text=PRE + r'''
 /* abstract view of a string for this question: has it been percent-decoded yet?  (x-www-form-urlencoded, WHATWG URL 5.1:
    split on '&' and '=', replace '+' by space, and only then percent-decode each name and value - an encoded "%26", "%3D" or "%2B" must not act as a delimiter or a space) */
@@ -281,6 +283,7 @@ static TV T_REPLACE_PLUS(TV s) { if (s.decoded) g_bad = 1; __CPROVER_assert(!s.d
 static TV T_SPLIT(TV s) { if (s.decoded) g_bad = 1; __CPROVER_assert(!s.decoded, "the query is split on '&' and '=' BEFORE percent-decoding (a decoded \"%26\" / \"%3D\" is data)"); TV r = s; r.split_done = true; return r; }
 static TV T_ITEM(TV q) { return q; }
 static TV T_DECODE(TV s) { TV r = s; r.decoded = true; return r; }
+static void T_STORE_ALL(TV q) { __CPROVER_assert(q.decoded && q.split_done && q.plus_done, "names and values are returned split, plus-substituted and percent-decoded"); g_stored++; }
 static void T_STORE(TV k, TV v) { __CPROVER_assert(k.decoded && v.decoded && k.split_done && v.split_done && k.plus_done && v.plus_done, "names and values are stored split, plus-substituted and percent-decoded"); g_stored++; }
 void parseQuery(TV querystring)
 __CPROVER_requires(!querystring.decoded && !querystring.plus_done && !querystring.split_done && g_stored == 0 && g_bad == 0 && vf_once == 1)
